@@ -368,8 +368,10 @@ static void s_sba_free_to_bin(struct sba_bin *bin, void *addr) {
                 break;
             }
         }
-        /* ensure that the page tag is erased, in case nearby memory is re-used */
-        page->tag = page->tag2 = 0;
+        /* ensure that the page tag is erased, in case nearby memory is re-used. A plain store into memory that is freed
+         * right away is dead to the compiler and gets dropped from optimised builds, so use the zeroing primitive that
+         * is guaranteed to stay. */
+        aws_secure_zero(page, sizeof(struct page_header));
         s_aligned_free(page);
         return;
     }
